@@ -30,11 +30,11 @@ def parse_nwchem(nwchem_basis_file):
     with open(nwchem_basis_file, "r") as basis_fh:
         nwchem_basis = basis_fh.read()
 
-    data = re.split(r"\n\s*(\w[\w]?)[ ]+(\w+)\s*\n", nwchem_basis)
+    # a newline is prepended so that a header on the very first line is recognized as well
+    data = re.split(r"\n\s*(\w[\w]?)[ ]+(\w+)\s*\n", "\n" + nwchem_basis)
     dict_angmom = {"s": 0, "p": 1, "d": 2, "f": 3, "g": 4, "h": 5, "i": 6, "k": 7}
-    # remove first part
-    if "\n" in data[0]:  # pragma: no branch
-        data = data[1:]
+    # remove first part (the text before the first header, possibly empty)
+    data = data[1:]
     atoms = data[::3]
     angmoms = data[1::3]
     exps_coeffs_all = data[2::3]
@@ -102,11 +102,11 @@ def parse_gbs(gbs_basis_file):
         gbs_basis = basis_fh.read()
     # splits file into 'element', 'basis stuff', 'element',' basis stuff'
     # e.g., ['H','stuff with exponents & coefficients\n', 'C', 'stuff with etc\n']
-    data = re.split(r"\n\s*(\w[\w]?)\s+\w+\s*\n", gbs_basis)
+    # a newline is prepended so that an element header on the very first line is recognized as well
+    data = re.split(r"\n\s*(\w[\w]?)\s+\w+\s*\n", "\n" + gbs_basis)
     dict_angmom = {"s": 0, "p": 1, "d": 2, "f": 3, "g": 4, "h": 5, "i": 6, "k": 7}
-    # remove first part
-    if "\n" in data[0]:  # pragma: no branch
-        data = data[1:]
+    # remove first part (the text before the first element, possibly empty)
+    data = data[1:]
     # atoms: stride of 2 get the ['H','C', etc]. basis: take strides of 2 to skip elements
     atoms = data[::2]
     basis = data[1::2]
